@@ -98,6 +98,8 @@ def _block(stmts, called: bool, pred) -> Tuple[Optional[bool], bool]:
 
 def must_call(func: ast.FunctionDef, pred: Callable[[ast.Call], bool]) -> bool:
     called, ok = _block(func.body, False, pred)
+    if called is None and not any(isinstance(n, ast.Return) for n in ast.walk(func)):
+        return False  # never exits normally (abstract method): nothing is established for its callers
     return ok and (called is None or called)
 
 
